@@ -335,15 +335,19 @@ def _main(prop_id, args, seed, t0, scratch):
           f"excluded_known={sum(m['excluded_known'].values())} wall={wall:.1f}s")
     for n in notes:
         print("note:", n)
-    if rc == 2:
-        for h in m['harness_errors'][:5]:
-            print(f"HARNESS-ERROR property={prop_id} {h}")
-        return 2
     if violations_out:
+        # a found violation is reported even when some cases also hit a harness problem (e.g. a change to the
+        # repository that breaks setup makes the class histogram degenerate)
+        for h in m['harness_errors'][:3]:
+            print(f"note: harness problem alongside the violation: {h[:300]}")
         for sig, path in violations_out:
             print(f"  signature={sig}")
             print(f"VIOLATION property={prop_id} replay={path}")
         return 1
+    if rc == 2:
+        for h in m['harness_errors'][:5]:
+            print(f"HARNESS-ERROR property={prop_id} {h}")
+        return 2
     return 0
 
 
